@@ -35,7 +35,7 @@ assert ODD_REG_NAMES == sorted(ODD_REG_NAMES) and ODD_SEC_NAMES == sorted(ODD_SE
 # ------------------------------------------------------------------ tables
 
 
-def gen_table(rng: random.Random, m=None, n=None, k=None, kind=None, scale=None, labels=None) -> dict:
+def gen_table(rng: random.Random, m=None, n=None, k=None, kind=None, scale=None, labels=None, neg_va=False) -> dict:
     m = m or rng.choice([1, 2, 2, 3])
     n = n or rng.choice([2, 3, 3, 4])
     k = k or rng.choice([1, 1, 2])
@@ -91,7 +91,7 @@ def gen_table(rng: random.Random, m=None, n=None, k=None, kind=None, scale=None,
         for j in bad:
             for c in range(F):
                 Y[j][c] = Y[j][c] * 1.7 + scale
-    if kind == "dense" and random.Random(int(Z[0][0] * 1e6) ^ 0x7E6A).random() < 0.12:
+    if (kind == "dense" and random.Random(int(Z[0][0] * 1e6) ^ 0x7E6A).random() < 0.12) or (neg_va and kind == "dense"):
         # one industry buys more of one input (all regions together) than it produces: technical coefficient above 1, negative
         # value added — accepted by the library with a warning, and balanced like any other table
         j_ = random.Random(int(Z[0][0] * 1e6) ^ 0x7E6B).randrange(N)
@@ -609,7 +609,9 @@ def gen_scenario(seed: int, stream: str = "shocked", **over) -> dict:
         # mixed magnitudes: ordinary industries above one currency unit per step, the tiny one below
         over = dict(over, scale=random.Random(seed ^ 0x77).choice([1.0, 1e3]),
                     cfg=dict(over.get("cfg", {}), monetary_factor=random.Random(seed ^ 0x78).choice([10**6, 10**6, 10**3])))
-    tb = gen_table(rng, **{kk: over[kk] for kk in ("m", "n", "k", "kind", "scale", "labels") if kk in over})
+    if stream == "eventfree" and seed % 10 == 7 and "kind" not in over:
+        over = dict(over, kind="dense", neg_va=True)
+    tb = gen_table(rng, **{kk: over[kk] for kk in ("m", "n", "k", "kind", "scale", "labels", "neg_va") if kk in over})
     if tiny_:
         # one industry nine orders of magnitude smaller than the others (its output per step is below one currency unit
         # of most monetary factors, next to ordinary industries)
